@@ -166,6 +166,12 @@ func (x *Exec) havocLock(cfg *Config, ld *lockDecl, o *origin) {
 	env := x.lockEnv(cfg, ld, o)
 	c := &FuncContract{Pkg: ld.pkg}
 	for _, h := range ld.havoc {
+		// a field named by the lock declaration that no longer exists in the
+		// tree cannot be accessed by the code either: skip it
+		if !x.modEntryResolves(env, h) {
+			x.note("lock declaration names %s, which does not resolve any more (skipped)", h.exprString())
+			continue
+		}
 		c.Modifies = append(c.Modifies, &Clause{Kind: "modifies", E: h})
 	}
 	x.havocModifies(cfg, env, c)
@@ -971,4 +977,19 @@ func (x *Exec) obligeParts(cfg *Config, env *SpecEnv, kind, label string, e Expr
 		}
 	}
 	x.oblige(cfg, kind, label, x.specBool(env, e), props, pos)
+}
+
+// modEntryResolves: does a modifies entry still denote something in the tree?
+func (x *Exec) modEntryResolves(env *SpecEnv, e Expr) (ok bool) {
+	defer func() {
+		if r := recover(); r != nil {
+			if _, isU := r.(unsupportedErr); isU {
+				ok = false
+				return
+			}
+			panic(r)
+		}
+	}()
+	x.resolveModEntry(env, e)
+	return true
 }
